@@ -24,3 +24,7 @@ package shared
 //@ func (*ClickhouseGetterPlanner).ScanMatrix [C12]
 //@   loop 1:
 //@     invariant 0 <= i && i < len(entries) && len(entries) == 100
+
+// SQL planners build a statement; the only thing of the request context they touch is its id counter.
+//@ iface (SQLRequestPlanner).Process(ctx)
+//@   modifies ctx.id
